@@ -1,6 +1,7 @@
 (* Model/Builtins.v — the list / map built-ins of /repo/interpreter/func_provider.go
    (lenFunc, addFunc, delFunc (REPAIRED), concatFunc) as the Go code computes them: slices
-   with append / copy / re-slicing, out-of-range slice expressions are Go panics.
+   with append / copy / re-slicing; positions outside the list are errors (they were Go panics
+   before the repair d53eab2).
    The functions work on the contents of the slice that is RETURNED ("Only the returned
    value should be used further", ecal.md).  No proofs in this file. *)
 From Coq Require Import ZArith String.
@@ -31,27 +32,30 @@ Definition go_copy_within {A} (l : list A) (d s : nat) : list A :=
   let n := Nat.min (length l - d) (length l - s) in
   firstn d l ++ firstn n (skipn s l) ++ skipn (d + n) l.
 
-(* add(list, value, index):
-     argList = append(argList, 0)
-     copy(argList[int(index+1):], argList[int(index):])
-     argList[int(index)] = args[1]                                   *)
+(* add(list, value, index), since d53eab2:
+     if i := int(index); i >= 0 && i <= len(argList) {
+       argList = append(argList, 0)
+       copy(argList[i+1:], argList[i:])
+       argList[i] = args[1]
+     } else { err = "Out of bounds access to list ..." }                *)
 Definition go_add_at (l : list val) (v : val) (i : Z) : outcome (list val) :=
-  let l1 := l ++ [VNum 0] in
-  if (i + 1 <? 0)%Z || (Z.of_nat (length l1) <? i + 1)%Z then Panic "add: slice bounds out of range"
-  else if (i <? 0)%Z then Panic "add: slice bounds out of range"
-  else
+  if (0 <=? i)%Z && (i <=? Z.of_nat (length l))%Z then
+    let l1 := l ++ [VNum 0] in
     let n := Z.to_nat i in
     let l2 := go_copy_within l1 (S n) n in
-    Ok (list_upd l2 n v).
+    Ok (list_upd l2 n v)
+  else Err "out of bounds".
 
 (* add(list, value): append(argList, args[1]) *)
 Definition go_add (l : list val) (v : val) : list val := l ++ [v].
 
-(* del(list, index): append(argList[:int(index)], argList[int(index+1):]...) *)
+(* del(list, index), since d53eab2:
+     if i := int(index); i >= 0 && i < len(argList) { append(argList[:i], argList[i+1:]...) }
+     else { err = "Out of bounds access to list ..." }                    *)
 Definition go_del_at (l : list val) (i : Z) : outcome (list val) :=
-  if (i <? 0)%Z then Panic "del: slice bounds out of range"
-  else if (Z.of_nat (length l) <? i + 1)%Z then Panic "del: slice bounds out of range"
-  else Ok (firstn (Z.to_nat i) l ++ skipn (Z.to_nat (i + 1)) l).
+  if (0 <=? i)%Z && (i <? Z.of_nat (length l))%Z
+  then Ok (firstn (Z.to_nat i) l ++ skipn (Z.to_nat (i + 1)) l)
+  else Err "out of bounds".
 
 (* del(map, key) after the repair: the entry that an access m[key] reads is removed *)
 Definition go_map_del (m : list (key * val)) (k : key) : list (key * val) :=
